@@ -30,6 +30,9 @@ def parse_sem_line(line):
     return {"frontier": parse_result(f["F"]), "exec": parse_result(f["X"]), "trace": tr, "pat_ok": line.endswith("ok=1")}
 
 
+LAST_REJECTED = []      # the cases of the last run_cases that rustc rejects (a well-typed generated assertion that does not compile)
+
+
 class RejectedAssertion(vlib.CheckError):
     """a generated, well-typed assertion that the compiler rejects"""
     def __init__(self, case, stderr):
@@ -117,23 +120,41 @@ def run_cases(cases, tag="sem", per_program=120):
         progs.append(e2e.PRELUDE + semgen.DECLS + "fn main() {\n    std::panic::set_hook(Box::new(|_| {}));\n"
                      "    let _plain = assert_struct::__macro_support::PlainOutputGuard::new();\n" + "\n".join(body) + "\n}\n")
     out = e2e.compile_many(progs, run=True, tag=tag)
+    del LAST_REJECTED[:]
     for k, o in enumerate(out):
         if not o["compiled"]:
             # which assertion is it?  every case of the program on its own (the generator's programs all compile on the tree the
-            # generator was developed against: an assertion that no longer compiles is a finding, not a crash of the check)
+            # generator was developed against: an assertion that no longer compiles is a finding, not a crash of the check).  The
+            # rejected ones are set aside (LAST_REJECTED) and the rest of the program is compiled and run again.
             group = cases[k * per_program:(k + 1) * per_program]
             singles = [e2e.PRELUDE + semgen.DECLS + "fn main() {\n    run_case(\"0\", || { %s let v: %s = %s; assert_struct!(v, %s); });\n}\n"
                        % (semgen.CALLER_LETS, c["type"], c["value_rust"], c.get("program_pattern", c["pattern"])) for c in group]
             so = e2e.compile_many(singles, run=False, tag=tag + "_single")
             e2e.cleanup(tag + "_single")
-            for c, r in zip(group, so):
+            keep = []
+            for i, (c, r) in enumerate(zip(group, so)):
                 if not r["compiled"]:
-                    raise RejectedAssertion(c, r["stderr"][-1500:])
-            raise vlib.CheckError("generated program %d does not compile (generator or macro problem):\n%s"
-                                  % (k, o["stderr"][-3000:]))
+                    c["rejected"] = r["stderr"][-1500:]
+                    LAST_REJECTED.append(c)
+                else:
+                    keep.append((k * per_program + i, c))
+            if len(keep) == len(group):
+                raise vlib.CheckError("generated program %d does not compile (generator or macro problem):\n%s"
+                                      % (k, o["stderr"][-3000:]))
+            body = ["    run_case(\"%d\", || { %s let v: %s = %s; assert_struct!(v, %s); });"
+                    % (idx, semgen.CALLER_LETS, c["type"], c["value_rust"], c.get("program_pattern", c["pattern"])) for idx, c in keep]
+            prog = (e2e.PRELUDE + semgen.DECLS + "fn main() {\n    std::panic::set_hook(Box::new(|_| {}));\n"
+                    "    let _plain = assert_struct::__macro_support::PlainOutputGuard::new();\n" + "\n".join(body) + "\n}\n")
+            o = e2e.compile_many([prog], run=True, tag=tag + "_rest")[0]
+            e2e.cleanup(tag + "_rest")
+            if not o["compiled"]:
+                raise vlib.CheckError("generated program %d does not compile even without the assertions rustc rejects one by one:\n%s"
+                                      % (k, o["stderr"][-3000:]))
         res = e2e.parse_case_lines(o.get("stdout", ""))
         for i, c in enumerate(cases[k * per_program:(k + 1) * per_program]):
             c["real"] = res.get(str(k * per_program + i))
+    if LAST_REJECTED:
+        cases[:] = [c for c in cases if "rejected" not in c]
     model_for(cases)
     return cases
 
